@@ -8562,7 +8562,13 @@ func (c *Checker) checkSelectUnaryExpressionNode(node *ast.UnaryExpressionNode) 
 
 	resultClass := c.runtimeEnv.NamesToNamespace(symbol.Std, symbol.Result)
 	closedErrorClass := c.runtimeEnv.NamesToNamespace(symbol.Std, symbol.Channel, value.ToSymbol("ClosedError"))
-	channelVal := rightType.(*types.Generic).Get(0).Type
+	rightGeneric, ok := rightType.(*types.Generic)
+	if !ok {
+		// not a channel (reported above) or an expression that failed to typecheck
+		node.SetType(types.Untyped{})
+		return node
+	}
+	channelVal := rightGeneric.Get(0).Type
 
 	typ := types.NewGenericWithTypeArgs(resultClass, channelVal, closedErrorClass)
 	node.SetType(typ)
